@@ -144,6 +144,10 @@ STD_RULES = [
     [r'\b(\w+)\.front\(\)', r'\1[0]', '*'],
     # rule 6: structured binding of a std::pair<bool, long long> returned by a call
     [r'\bauto \[(\w+), (\w+)\] = ((?:valueOn\w+|evaluatePlacement)\([^;]*\));', r'Pair_bool_longlong verif_p_\1 = \3; bool \1 = verif_p_\1.first; long long \2 = verif_p_\1.second;', '*'],
+    [r'\bauto \[(\w+), (\w+)\] = ((?:\w+_)?attemptPlacement\([^;]*\));', r'Pair_bool_int verif_p_\1 = \3; bool \1 = verif_p_\1.first; int \2 = verif_p_\1.second;', '*'],
+    # `auto x = e;` and `const auto &x = e;` (read-only alias) -> GNU __auto_type (a non-const `auto &` is NOT lowered)
+    [r'\bconst\s+auto\s*&\s*(\w+)\s*=', r'const __auto_type \1 =', '*'],
+    [r'\bauto\s+(\w+)\s*=(?!=)', r'__auto_type \1 =', '*'],
     # rule 9: container operations on lowered vectors (models in prelude/containers_abs.h)
     [r'\b(\w+)\.reserve\([^;]*\);', '', '*'],
     [r'\b(\w+)\.insert\(\s*\1\.end\(\),\s*(\w+)\.begin\(\),\s*\2\.end\(\)\)', r'VEC_APPEND(\1, \2)', '*'],
@@ -203,6 +207,115 @@ def lower_try(text, log):
         text = (text[:m.start()] + '{' + body + '} ' + label + ': if (verif_exc) { verif_exc = 0; ' + handler + '}' + text[he + 1:])
         n += 1
     log.append({'rule': 'try/catch(...) lowering', 'fired': n, 'must': '*'})
+    return text
+
+
+def strip_comments_keep_lines(s):
+    """remove // and /* */ comments (outside string literals), keeping every newline"""
+    out = []
+    i = 0
+    n = len(s)
+    while i < n:
+        c = s[i]
+        if c == '"' or c == "'":
+            q = c
+            j = i + 1
+            while j < n and s[j] != q:
+                if s[j] == '\\':
+                    j += 1
+                j += 1
+            out.append(s[i:j + 1])
+            i = j + 1
+            continue
+        if s.startswith('//', i):
+            j = s.find('\n', i)
+            i = n if j < 0 else j
+            continue
+        if s.startswith('/*', i):
+            j = s.find('*/', i)
+            j = n if j < 0 else j + 2
+            out.append('\n' * s.count('\n', i, j))
+            i = j
+            continue
+        out.append(c)
+        i += 1
+    return ''.join(out)
+
+
+def _strip_comments(s):
+    out = []
+    i = 0
+    n = len(s)
+    while i < n:
+        if s.startswith('//', i):
+            j = s.find('\n', i)
+            i = n if j < 0 else j
+            continue
+        if s.startswith('/*', i):
+            j = s.find('*/', i)
+            i = n if j < 0 else j + 2
+            continue
+        out.append(s[i])
+        i += 1
+    return ''.join(out)
+
+
+def lower_local_lambdas(text, log):
+    """rule 7: a capture-by-reference lambda used as a local function
+           auto f = [&](T a) [-> R] { BODY };   ...   f(ARG)
+    is inlined at each call site as a GNU statement expression
+           ({ T a = (ARG); R verif_ret_f; do { BODY' } while (0); verif_ret_f; })
+    with `return e;` in BODY rewritten to `{ verif_ret_f = (e); break; }`.  The body stays verbatim otherwise.
+    Admitted only for lambdas without loops or switch in their body (a `break` must leave the do-while)."""
+    n = 0
+    while True:
+        m = re.search(r'\bauto\s+(\w+)\s*=\s*\[&\]\s*\(([^)]*)\)\s*(?:->\s*(\w+)\s*)?\{', text)
+        if not m:
+            break
+        name, params, rtype = m.group(1), m.group(2).strip(), m.group(3) or 'bool'
+        ob = m.end() - 1
+        cb = match_close(text, ob, '{', '}')
+        tail = re.compile(r'\s*;').match(text, cb + 1)
+        if not tail:
+            raise ExtractionBroken('lambda %s: definition is not followed by ;' % name)
+        body = ''.join(text[k] for k, _ in scan(text, ob + 1, cb)) if False else _strip_comments(text[ob + 1:cb])
+        if re.search(r'\b(for|while|switch)\b', body):
+            raise ExtractionBroken('lambda %s: loops/switch inside a lambda body are outside the vocabulary' % name)
+        pm = re.match(r'^(\w+(?:\s+\w+)?)\s+&?\s*(\w+)$', params)
+        if not pm:
+            raise ExtractionBroken('lambda %s: only one by-value parameter is admitted (got %r)' % (name, params))
+        ptype, pname = pm.group(1), pm.group(2)
+        body2 = re.sub(r'\breturn\s+([^;]*);', lambda mm: '{ verif_ret_%s = (%s); break; }' % (name, mm.group(1)), body)
+        nl = text[m.start():tail.end()].count('\n')
+        text = text[:m.start()] + '\n' * nl + text[tail.end():]
+        calls = 0
+
+        def repl(mm):
+            nonlocal calls
+            calls += 1
+            close = match_close(mm.string, mm.end() - 1, '(', ')')
+            return None
+        # replace call sites (balanced argument)
+        out = []
+        i = 0
+        rx = re.compile(r'\b%s\s*\(' % re.escape(name))
+        while True:
+            mm = rx.search(text, i)
+            if not mm:
+                out.append(text[i:])
+                break
+            close = match_close(text, mm.end() - 1, '(', ')')
+            arg = text[mm.end():close]
+            out.append(text[i:mm.start()])
+            # the argument is evaluated before the parameter is declared (it may mention a variable of the same name)
+            out.append('({ %s verif_arg_%s = (%s); %s %s = verif_arg_%s; %s verif_ret_%s; do {%s} while (0); verif_ret_%s; })' % (ptype, name, arg, ptype, pname, name, rtype, name, ' '.join(body2.split('\n')), name))
+            i = close + 1
+            calls += 1
+        text = ''.join(out)
+        if calls == 0:
+            raise ExtractionBroken('lambda %s is never called' % name)
+        n += 1
+    log.append({'rule': 'local [&] lambda inlined as statement expression', 'fired': n, 'must': '*'})
     return text
 
 
